@@ -4,6 +4,7 @@ import (
 	"fmt"
 	"go/token"
 	"go/types"
+	"os"
 	"sort"
 
 	"golang.org/x/tools/go/ssa"
@@ -18,10 +19,12 @@ type modSet struct {
 }
 
 type heapMod struct {
-	sort    string
-	unknown bool
-	exact   []Term // exact addresses written (loop-invariant)
-	roots   []Term // root ids written (loop-invariant)
+	sort       string
+	unknown    bool
+	appendArgs []ssa.Value // first arguments of the appends that write this (element) heap
+	other      bool        // some write that is neither an append nor to an object allocated in the loop
+	exact      []Term      // exact addresses written (loop-invariant)
+	roots      []Term      // root ids written (loop-invariant)
 }
 
 func (m *modSet) heap(name, sort string) *heapMod {
@@ -151,6 +154,9 @@ func (a *Act) addrMods(li *loopInfo, m *modSet, addr ssa.Value, t types.Type) {
 				roots, rok := a.rootsOf(li, x.X, map[ssa.Value]bool{})
 				for _, lh := range a.elemHeaps(et) {
 					hm := m.heap(lh.name, lh.sort)
+					if !(rok && len(roots) == 0) {
+						hm.other = true
+					}
 					if rok {
 						hm.roots = append(hm.roots, roots...)
 					} else {
@@ -206,6 +212,9 @@ func (a *Act) addrMods(li *loopInfo, m *modSet, addr ssa.Value, t types.Type) {
 	roots, rok := a.rootsOf(li, base, map[ssa.Value]bool{})
 	for _, lh := range heaps {
 		hm := m.heap(lh.name, lh.sort)
+		if !(rok && len(roots) == 0 && exact == "") {
+			hm.other = true
+		}
 		if exact != "" && len(heaps) == 1 {
 			hm.exact = append(hm.exact, exact)
 		} else if rok {
@@ -226,14 +235,24 @@ func (a *Act) loopMods(li *loopInfo, st *State) *modSet {
 	li.modNames = nil
 	first := a.loopMods1(li)
 	names := map[string]bool{}
-	for n := range first.heaps {
-		names[n] = true
+	for n, hm := range first.heaps {
+		// heaps written only at objects allocated inside the loop keep every pre-existing location
+		if hm.unknown || len(hm.exact) > 0 || len(hm.roots) > 0 {
+			names[n] = true
+		}
 	}
 	if first.all {
 		names["*"] = true
 	}
 	li.modNames = names
-	return a.loopMods1(li)
+	li.invCache = nil
+	m := a.loopMods1(li)
+	if os.Getenv("KV_DEBUG") != "" {
+		for n, h := range m.heaps {
+			fmt.Fprintf(os.Stderr, "loopmods %s L%d %s unknown=%v exact=%v roots=%v\n", fnName(a.fn), li.ord, n, h.unknown, h.exact, h.roots)
+		}
+	}
+	return m
 }
 
 func (a *Act) loopMods1(li *loopInfo) *modSet {
@@ -305,6 +324,9 @@ func (a *Act) instrModsS(li *loopInfo, m *modSet, ins ssa.Instruction, depth int
 			}
 			for _, lh := range a.storeHeaps(x.Addr, x.Val.Type()) {
 				hm := m.heap(lh.name, lh.sort)
+				if !(rok && len(roots) == 0) {
+					hm.other = true
+				}
 				if rok {
 					hm.roots = append(hm.roots, roots...)
 				} else {
@@ -413,6 +435,11 @@ func (a *Act) callMods(li *loopInfo, m *modSet, c ssa.CallInstruction, depth int
 			}
 			for _, lh := range a.elemHeaps(et) {
 				hm := m.heap(lh.name, lh.sort)
+				if depth == 0 {
+					hm.appendArgs = append(hm.appendArgs, com.Args[0])
+				} else {
+					hm.other = true
+				}
 				if rok {
 					hm.roots = append(hm.roots, roots...)
 				} else {
@@ -458,6 +485,7 @@ func (a *Act) callMods(li *loopInfo, m *modSet, c ssa.CallInstruction, depth int
 		}
 		for _, lh := range a.elemHeaps(et) {
 			hm := m.heap(lh.name, lh.sort)
+			hm.other = true
 			if rok {
 				hm.roots = append(hm.roots, roots...)
 			} else {
@@ -531,6 +559,7 @@ func (a *Act) contractMods(li *loopInfo, m *modSet, callee *ssa.Function, fc *Fu
 			}
 			for i, lh := range tg.heaps {
 				hm := m.heap(lh.name, lh.sort)
+				hm.other = true
 				if exact != nil && i < len(exact) {
 					hm.exact = append(hm.exact, exact[i])
 					continue
@@ -636,6 +665,33 @@ func (a *Act) loopHead(li *loopInfo, st *State, preds []edgeState) *State {
 			}
 		}
 	}
+	// accumulator slices: x = append(x, ...) is the only way the loop writes the element heap of x
+	// (besides objects it allocates itself): the elements below the entry length are unchanged.
+	if !mods.all {
+		for _, ins := range b.Instrs {
+			phi, ok := ins.(*ssa.Phi)
+			if !ok {
+				break
+			}
+			sl, isSlice := types.Unalias(phi.Type()).Underlying().(*types.Slice)
+			if !isSlice {
+				continue
+			}
+			eh := a.elemHeap(sl.Elem())
+			hm := mods.heaps[eh.name]
+			if hm == nil || hm.other || hm.unknown || !a.isAccumulator(li, phi, hm) {
+				continue
+			}
+			ev := li.entryPhi[phi].T
+			nv := a.vals[phi].T
+			if ev == "" || nv == "" {
+				continue
+			}
+			u.Fact(implies(g, app(">=", app("slen", nv), app("slen", ev))))
+			u.Fact(implies(g, fmt.Sprintf("(forall ((j Int)) (! (=> (and (<= 0 j) (< j (slen %s))) (= (select %s (saddr %s j)) (select %s (saddr %s j)))) :pattern ((select %s (saddr %s j)))))",
+				ev, h.heap(eh.name, eh.sort), nv, st.heap(eh.name, eh.sort), ev, h.heap(eh.name, eh.sort), nv)))
+		}
+	}
 	for al := range mods.locals {
 		if _, ok := h.locals[al]; ok {
 			h.locals[al] = u.D.Fresh("loc_"+al.Comment, u.D.SortOf(derefType(al.Type())))
@@ -649,10 +705,54 @@ func (a *Act) loopHead(li *loopInfo, st *State, preds []edgeState) *State {
 			}
 		}
 	}
+	// ghost variables updated by this loop (or a nested one) are havoced
+	if a.fc != nil && a == a.top {
+		for _, g := range a.fc.Ghosts {
+			ns := map[int]bool{}
+			for n := range g.Updates {
+				ns[n] = true
+			}
+			for n := range g.EndUpdates {
+				ns[n] = true
+			}
+			for n := range ns {
+				var inner *loopInfo
+				for _, l2 := range a.loops {
+					if l2.ord == n {
+						inner = l2
+					}
+				}
+				if inner != nil && li.blocks[inner.head] {
+					srt, _ := ghostSort(g.Sort)
+					h.setHeap("G_"+g.Name, srt, u.D.Fresh("G_"+g.Name, srt))
+				}
+			}
+		}
+	}
 	// 3. assume invariants
 	headEnv := a.loopEnv(li, h, "head", nil)
 	for _, cl := range invs {
-		h.assume(a.evalClause(headEnv, cl))
+		u.TaggedFact(implies(h.guard, a.evalClause(headEnv, cl)), fmt.Sprintf("inv:L%d#%d", li.ord, cl.Ord))
+	}
+	// 4. ghost updates of this loop head
+	if a.fc != nil && a == a.top {
+		for _, g := range a.fc.Ghosts {
+			if e, ok := g.Updates[li.ord]; ok {
+				srt, _ := ghostSort(g.Sort)
+				var t Term
+				if err := catch(func() {
+					v := headEnv.value(headEnv.eval(e))
+					t = v.T
+					if v.Sort == "Int" && srt == "Real" {
+						t = toReal(t)
+					}
+				}); err != nil {
+					u.Errors = append(u.Errors, fmt.Sprintf("%s: ghost update %s: %v", u.Name, g.Name, err))
+					continue
+				}
+				h.setHeap("G_"+g.Name, srt, t)
+			}
+		}
 	}
 	li.st = h
 	li.hasMeas = false
@@ -674,6 +774,26 @@ func (a *Act) loopHead(li *loopInfo, st *State, preds []edgeState) *State {
 
 func (a *Act) loopBack(li *loopInfo, st *State, from *ssa.BasicBlock) {
 	invs, decr := a.loopClauses(li)
+	if a.fc != nil && a == a.top {
+		for _, g := range a.fc.Ghosts {
+			if e, ok := g.EndUpdates[li.ord]; ok {
+				srt, _ := ghostSort(g.Sort)
+				genv := a.loopEnv(li, st, "back", from)
+				var t Term
+				if err := catch(func() {
+					v := genv.value(genv.eval(e))
+					t = v.T
+					if v.Sort == "Int" && srt == "Real" {
+						t = toReal(t)
+					}
+				}); err != nil {
+					a.u.Errors = append(a.u.Errors, fmt.Sprintf("%s: ghost-end update %s: %v", a.u.Name, g.Name, err))
+					continue
+				}
+				st.setHeap("G_"+g.Name, srt, t)
+			}
+		}
+	}
 	env := a.loopEnv(li, st, "back", from)
 	pos := from.Instrs[len(from.Instrs)-1].Pos()
 	if !pos.IsValid() {
@@ -702,7 +822,9 @@ func (a *Act) obligeClause(st *State, kind, detail string, cl *Clause, pos inter
 		p = a.u.E.Pos(pos.(tokenPos))
 	}
 	o := a.u.Oblige(kind, detail, p, desc, st.guard, goal, cl.Tags)
-	_ = o
+	if cl.Kind == "invariant" {
+		o.KeepTag = fmt.Sprintf("inv:L%d#%d", cl.Loop, cl.Ord)
+	}
 }
 
 func (a *Act) loopClauses(li *loopInfo) (invs []*Clause, decr *Clause) {
@@ -723,46 +845,127 @@ func (a *Act) loopClauses(li *loopInfo) (invs []*Clause, decr *Clause) {
 	return
 }
 
-// invariantAddr: the value of a pointer expression that does not change in the loop
-// (defined outside, or the address of a struct-typed field of such a pointer).
+// invariantAddr: the value of an expression computed inside the loop that is the same in every
+// iteration: it is evaluated symbolically in the loop-entry state (pure instructions and inlinable
+// calls only) and must not read any heap the loop modifies at pre-existing objects.
 func (a *Act) invariantAddr(li *loopInfo, v ssa.Value) (Term, bool) {
 	if !inLoop(li, v) {
 		if x, ok := a.vals[v]; ok && x.Loc == nil && x.T != "" {
 			return x.T, true
 		}
-		if _, isParam := v.(*ssa.Parameter); isParam {
+		switch v.(type) {
+		case *ssa.Parameter, *ssa.FreeVar, *ssa.Const, *ssa.Global, *ssa.Function:
 			x := a.val(v)
-			return x.T, x.T != ""
+			return x.T, x.T != "" && x.Loc == nil
 		}
 		return "", false
 	}
-	if fa, ok := v.(*ssa.FieldAddr); ok {
-		ft := derefType(fa.Type())
-		if isStructType(ft) || isArrayType(ft) || isOpaqueStruct(ft) {
-			if t, ok := a.invariantAddr(li, fa.X); ok {
-				return app("sub", t, intLit(int64(fa.Field))), true
-			}
-		}
+	if li.modSt == nil {
+		return "", false
 	}
-	// a load, inside the loop, of a field that the loop does not modify
-	if ld, ok := v.(*ssa.UnOp); ok && ld.Op == token.MUL && li.modNames != nil && li.modSt != nil && !li.modNames["*"] {
-		if fa, ok := ld.X.(*ssa.FieldAddr); ok {
-			ft := derefType(fa.Type())
-			if !isStructType(ft) && !isArrayType(ft) && !isOpaqueStruct(ft) {
-				if base, ok := a.invariantAddr(li, fa.X); ok {
-					h, hs := a.u.D.FieldHeap(derefType(fa.X.Type()), fa.Field)
-					if !li.modNames[h] {
-						return sel(li.modSt.heap(h, hs), base), true
-					}
+	if li.invCache == nil {
+		li.invCache = map[ssa.Value]*Val{}
+	}
+	if c, ok := li.invCache[v]; ok {
+		if c == nil || c.Loc != nil || c.T == "" {
+			return "", false
+		}
+		return c.T, true
+	}
+	li.invCache[v] = nil
+	// first pass (modNames unknown yet): only pure address arithmetic
+	probe := li.modSt.clone()
+	probe.probe = map[string]bool{}
+	probe.guard = "true"
+	sub := &Act{u: a.u, fn: a.fn, fc: nil, vals: map[ssa.Value]Val{}, depth: a.depth, top: a.top, entry: a.entry, spec: true,
+		pureFns: a.pureFns, stack: a.stack, params: a.params, free: a.free}
+	var eval func(v ssa.Value, depth int) bool
+	eval = func(v ssa.Value, depth int) bool {
+		if depth > 12 {
+			return false
+		}
+		if _, ok := sub.vals[v]; ok {
+			return true
+		}
+		if !inLoop(li, v) {
+			switch v.(type) {
+			case *ssa.Const, *ssa.Function, *ssa.Global, *ssa.Builtin:
+				return true
+			}
+			x, ok := a.vals[v]
+			if !ok {
+				return false
+			}
+			sub.vals[v] = x
+			return true
+		}
+		ins, ok := v.(ssa.Instruction)
+		if !ok {
+			return false
+		}
+		switch x := ins.(type) {
+		case *ssa.FieldAddr, *ssa.Field, *ssa.Extract, *ssa.ChangeType, *ssa.Convert, *ssa.BinOp:
+		case *ssa.UnOp:
+			if x.Op != token.MUL && x.Op != token.SUB && x.Op != token.NOT {
+				return false
+			}
+		case *ssa.Call:
+			callee := a.staticCallee(x.Common())
+			if callee == nil || a.u.E.Contracts[callee] != nil && !a.u.E.Contracts[callee].Inline || !a.canInline(callee, a.stack) {
+				if callee == nil {
+					return false
+				}
+				if _, isIntr := intrinsics[intrinsicKey(callee)]; !isIntr {
+					return false
 				}
 			}
+		default:
+			return false
+		}
+		for _, op := range ins.Operands(nil) {
+			if *op == nil {
+				continue
+			}
+			if !eval(*op, depth+1) {
+				return false
+			}
+		}
+		nf := len(a.u.Facts)
+		if err := catch(func() { sub.instr(probe, ins) }); err != nil {
+			a.u.Facts = a.u.Facts[:nf]
+			return false
+		}
+		_, ok = sub.vals[v]
+		return ok
+	}
+	if !eval(v, 0) {
+		return "", false
+	}
+	if li.modNames == nil {
+		if len(probe.probe) > 0 {
+			delete(li.invCache, v) // retry in the second pass
+			return "", false
+		}
+	} else {
+		if li.modNames["*"] {
+			return "", false
+		}
+		for h := range probe.probe {
+			if li.modNames[h] {
+				return "", false
+			}
 		}
 	}
-	return "", false
+	r := sub.vals[v]
+	li.invCache[v] = &r
+	if r.Loc != nil || r.T == "" {
+		return "", false
+	}
+	return r.T, true
 }
 
 // exactTargets evaluates the addresses of a modifies target for a call inside a loop, using only
-// loop-invariant arguments and no heap reads; nil if that is not possible.
+// loop-invariant arguments and heaps the loop does not modify; nil if that is not possible.
 func (a *Act) exactTargets(li *loopInfo, callee *ssa.Function, com *ssa.CallCommon, tg *modTargetInfo) (out []Term) {
 	args := com.Args
 	vals := make([]Val, len(callee.Params))
@@ -775,7 +978,11 @@ func (a *Act) exactTargets(li *loopInfo, callee *ssa.Function, com *ssa.CallComm
 			}
 		}
 	}
-	probe := &State{u: a.u, guard: "true", heaps: map[string]Term{}, alloc: a.u.alloc0, probe: new(bool)}
+	if li.modSt == nil || li.modNames == nil || li.modNames["*"] {
+		return nil
+	}
+	probe := li.modSt.clone()
+	probe.probe = map[string]bool{}
 	env := a.fnEnv(callee, vals, nil, probe, probe, nil)
 	inner := env.lookup
 	bad := false
@@ -787,8 +994,66 @@ func (a *Act) exactTargets(li *loopInfo, callee *ssa.Function, com *ssa.CallComm
 		}
 		return inner(name)
 	}
-	if err := catch(func() { out = tg.exact(env) }); err != nil || bad || *probe.probe {
+	if err := catch(func() { out = tg.exact(env) }); err != nil || bad {
 		return nil
 	}
+	for h := range probe.probe {
+		if li.modNames[h] {
+			return nil // the address depends on something the loop modifies
+		}
+	}
 	return out
+}
+
+// isAccumulator: every value the slice phi takes on a back edge is obtained from the phi itself by a
+// chain of appends (possibly through joins and inner loops), and every append that writes the element
+// heap inside the loop extends this chain.
+func (a *Act) isAccumulator(li *loopInfo, phi *ssa.Phi, hm *heapMod) bool {
+	chain := map[ssa.Value]bool{phi: true}
+	var derived func(v ssa.Value, depth int) bool
+	derived = func(v ssa.Value, depth int) bool {
+		if chain[v] {
+			return true
+		}
+		if depth > 32 || !inLoop(li, v) {
+			return false
+		}
+		switch x := v.(type) {
+		case *ssa.Call:
+			if b, ok := x.Call.Value.(*ssa.Builtin); ok && b.Name() == "append" {
+				if derived(x.Call.Args[0], depth+1) {
+					chain[v] = true
+					return true
+				}
+			}
+		case *ssa.Phi:
+			chain[v] = true // assume, then check the edges
+			for _, e := range x.Edges {
+				if !derived(e, depth+1) {
+					delete(chain, v)
+					return false
+				}
+			}
+			return true
+		}
+		return false
+	}
+	for i, pb := range li.head.Preds {
+		if !li.blocks[pb] {
+			continue
+		}
+		if !derived(phi.Edges[i], 0) {
+			return false
+		}
+	}
+	for _, arg := range hm.appendArgs {
+		if !derived(arg, 0) {
+			// an append to some other slice: only harmless if that slice lives in memory allocated in the loop
+			roots, ok := a.rootsOf(li, arg, map[ssa.Value]bool{})
+			if !ok || len(roots) > 0 {
+				return false
+			}
+		}
+	}
+	return true
 }
